@@ -1,6 +1,6 @@
-(* Proofs/Seal.v -- C18: size sealing.  The size invariant for all histories outside the narrow
-   known class (O_TRUNC on open/create, O_APPEND in a write's flags), its refutation inside the
-   class, "within size = unsealed", "refused = no effect". *)
+(* Proofs/Seal.v -- C18: size sealing.  The size invariant for all histories and all flag words (what
+   reaches openat(2), what reaches F_SETFL), its refutation on a tree without the refusals, "within size =
+   unsealed", "refused = no effect". *)
 From Coq Require Import List NArith Bool Lia ZifyBool ZifyNat ZifyN.
 From FB Require Import Model.Seal.
 Import ListNotations.
@@ -13,11 +13,88 @@ Definition falloc_within (H : host) : Prop :=
     (op = 0 \/ op = FL_PUNCH_HOLE \/ op = FL_ZERO_RANGE) -> off + len <= size ->
     snd (ho_falloc H w size mode off len) = size.
 
+(* ------------------------------------------------------------------ flag words, bit by bit *)
+Lemma has_pow2 x k : has x (2 ^ k) = N.testbit x k.
+Proof.
+  unfold has. destruct (N.testbit x k) eqn:E.
+  - assert (Hl : N.land x (2 ^ k) = 2 ^ k).
+    { apply N.bits_inj. intro n. rewrite N.land_spec, N.pow2_bits_eqb.
+      destruct (N.eqb_spec k n) as [<-|]; [rewrite E; reflexivity|apply andb_false_r]. }
+    rewrite Hl. pose proof (N.pow_nonzero 2 k). destruct (N.eqb_spec (2 ^ k) 0); [lia|reflexivity].
+  - assert (Hl : N.land x (2 ^ k) = 0).
+    { apply N.bits_inj. intro n. rewrite N.land_spec, N.pow2_bits_eqb, N.bits_0.
+      destruct (N.eqb_spec k n) as [<-|]; [rewrite E; reflexivity|apply andb_false_r]. }
+    rewrite Hl. reflexivity.
+Qed.
+Lemma has_trunc x : has x O_TRUNC = N.testbit x 9.
+Proof. exact (has_pow2 x 9). Qed.
+Lemma has_append x : has x O_APPEND = N.testbit x 10.
+Proof. exact (has_pow2 x 10). Qed.
+
+(* the constant masks of the code at bits 9 (O_TRUNC) and 10 (O_APPEND) *)
+Ltac mask_bits :=
+  unfold clear_bits; rewrite ?N.ldiff_spec, ?N.lor_spec, ?N.ldiff_spec, ?N.lor_spec, ?N.ldiff_spec;
+  change (N.testbit O_ACCMODE 9) with false; change (N.testbit O_ACCMODE 10) with false;
+  change (N.testbit 2 9) with false; change (N.testbit 2 10) with false;
+  change (N.testbit O_APPEND 9) with false; change (N.testbit O_APPEND 10) with true;
+  change (N.testbit O_DIRECT 9) with false; change (N.testbit O_DIRECT 10) with false;
+  change (N.testbit O_CLOEXEC 9) with false; change (N.testbit O_CLOEXEC 10) with false;
+  change (N.testbit O_NOFOLLOW 9) with false; change (N.testbit O_NOFOLLOW 10) with false;
+  change (N.testbit O_CREAT 9) with false; change (N.testbit O_CREAT 10) with false;
+  cbn [negb]; rewrite ?andb_true_r, ?orb_false_r, ?andb_false_r.
+
+(* get_writeback_open_flags never touches the O_TRUNC bit, and never sets O_APPEND *)
+Lemma wb_flags_trunc wb fl : N.testbit (wb_flags wb fl) 9 = N.testbit fl 9.
+Proof.
+  unfold wb_flags. destruct (wb && (acc_mode fl =? 1)), (wb && has fl O_APPEND); mask_bits; reflexivity.
+Qed.
+Lemma wb_flags_append wb fl : N.testbit (wb_flags wb fl) 10 = true -> N.testbit fl 10 = true.
+Proof.
+  unfold wb_flags. destruct (wb && (acc_mode fl =? 1)), (wb && has fl O_APPEND); mask_bits; try discriminate; auto.
+Qed.
+
+(* the word that reaches openat(2) carries O_TRUNC exactly when the word given to open_inode does: nothing on
+   the way (writeback adjustment, O_DIRECT, O_CLOEXEC, the O_NOFOLLOW / O_CREAT masks) removes it *)
+Lemma openat_word_trunc wb dio fl : has (openat_word wb dio fl) O_TRUNC = has fl O_TRUNC.
+Proof.
+  rewrite !has_trunc. unfold openat_word. destruct (negb dio && has fl O_DIRECT); mask_bits; apply wb_flags_trunc.
+Qed.
+Lemma openat_word_append wb dio fl : has (openat_word wb dio fl) O_APPEND = true -> has fl O_APPEND = true.
+Proof.
+  rewrite !has_append. unfold openat_word. destruct (negb dio && has fl O_DIRECT); mask_bits; apply wb_flags_append.
+Qed.
+Lemma setfl_word_append wb dio fl : has (setfl_word wb dio fl) O_APPEND = true -> has fl O_APPEND = true.
+Proof.
+  rewrite !has_append. unfold setfl_word. destruct (negb dio); mask_bits; apply wb_flags_append.
+Qed.
+
+(* the per-request descriptor of READ / WRITE / FALLOCATE under no_open is opened without O_TRUNC, whatever the
+   flag word of the request *)
+Lemma io_open_flags_trunc acc fl : acc = 0 \/ acc = 2 -> has (io_open_flags acc fl) O_TRUNC = false.
+Proof. intros [-> | ->]; reflexivity. Qed.
+
+(* the host: only a word with O_TRUNC changes the size on open; the descriptor appends only if the word says so *)
+Lemma host_open_size size w : has w O_TRUNC = false -> snd (fst (host_open size w)) = size.
+Proof.
+  intros Ht. unfold host_open. rewrite Ht.
+  destruct (has w O_PATH); [destruct (has w O_DIRECTORY); reflexivity|].
+  destruct (has w O_TMPFILE_BIT); [destruct (has w O_DIRECTORY && negb (acc_mode w =? 0)); reflexivity|].
+  destruct (has w O_DIRECTORY); reflexivity.
+Qed.
+Lemma host_open_append size w : fd_append (snd (host_open size w)) = true -> has w O_APPEND = true.
+Proof.
+  unfold host_open.
+  destruct (has w O_PATH); [destruct (has w O_DIRECTORY); discriminate|].
+  destruct (has w O_TMPFILE_BIT); [destruct (has w O_DIRECTORY && negb (acc_mode w =? 0)); discriminate|].
+  destruct (has w O_DIRECTORY); [discriminate|]. cbn [snd fd_append]. auto.
+Qed.
+
+(* ------------------------------------------------------------------ the invariant on handles *)
 (* the O_APPEND state of every host fd is the O_APPEND bit of the stored flags *)
-Definition hdl_ok (h : hdl) : Prop := hd_append h = true -> has (hd_flags h) O_APPEND = true.
+Definition hdl_ok (h : hdl) : Prop := fd_append (hd_fd h) = true -> has (hd_flags h) O_APPEND = true.
 Definition slots_ok (s : state) : Prop := forall k h, slots s k = Some h -> hdl_ok h.
 
-(* the narrow class of requests through which the current code lets a size change (D10) *)
+(* the narrow class of requests through which a tree without the refusals lets a size change (D10) *)
 Definition known (r : req) : bool :=
   match r with
   | Open _ _ fl | Create _ _ fl => has fl O_TRUNC
@@ -33,60 +110,139 @@ Lemma set_slot_none_ok s k : slots_ok s -> slots_ok (set_slot s k None).
 Proof. intros Hs j h'. unfold set_slot. cbn [slots]. destruct (j =? k); [discriminate|apply Hs]. Qed.
 Lemma set_size_ok s f v : slots_ok s -> slots_ok (set_size s f v).
 Proof. intros Hs j h'. unfold set_size. cbn [slots]. apply Hs. Qed.
-Lemma open_effect_ok s f fl : slots_ok s -> slots_ok (open_effect s f fl).
-Proof. intros Hs. unfold open_effect. destruct (has fl O_TRUNC); [apply set_size_ok|]; exact Hs. Qed.
-Lemma new_hdl_ok wb f fl : hdl_ok (new_hdl wb f fl).
-Proof. unfold hdl_ok, new_hdl. cbn [hd_append hd_flags]. intros Hx. apply andb_true_iff in Hx. tauto. Qed.
-
-Lemma get_data_ok C s slot file h : slots_ok s -> get_data C s slot file = Some h -> hdl_ok h.
+Lemma upd_size_ok s f v : slots_ok s -> slots_ok (upd_size s f v).
+Proof. intros Hs. unfold upd_size. destruct (v =? sizes s f); [exact Hs|apply set_size_ok; exact Hs]. Qed.
+Lemma upd_size_sizes s f v g : sizes (upd_size s f v) g = if g =? f then v else sizes s g.
 Proof.
-  intros Hs. unfold get_data. destruct (c_no_open C); [intros [= <-]; intros Hx; discriminate Hx|].
-  destruct (slots s slot) as [h0|] eqn:E; [|discriminate].
-  destruct (hd_file h0 =? file); [|discriminate]. intros [= <-]. exact (Hs _ _ E).
+  unfold upd_size. destruct (N.eqb_spec v (sizes s f)) as [->|]; [|reflexivity].
+  destruct (N.eqb_spec g f) as [->|]; reflexivity.
 Qed.
 
-Lemma check_fd_flags_ok wb h fl : hdl_ok h -> hdl_ok (check_fd_flags wb h fl).
+(* open_inode: the state, errno and descriptor as three projections *)
+Lemma open_inode_eq C s file fl :
+  open_inode C s file fl =
+  (fst (fst (host_open (sizes s file) (openat_word (c_writeback C) (c_dio C) fl))),
+   upd_size s file (snd (fst (host_open (sizes s file) (openat_word (c_writeback C) (c_dio C) fl)))),
+   snd (host_open (sizes s file) (openat_word (c_writeback C) (c_dio C) fl))).
+Proof. unfold open_inode. destruct (host_open _ _) as [[e sz] fd]. reflexivity. Qed.
+
+Lemma open_inode_ok C s file fl : slots_ok s -> slots_ok (snd (fst (open_inode C s file fl))).
+Proof. intros Hs. rewrite open_inode_eq. cbn [fst snd]. apply upd_size_ok. exact Hs. Qed.
+Lemma open_inode_hdl_ok C s file fl : hdl_ok (mk_hdl file fl (snd (open_inode C s file fl))).
+Proof.
+  rewrite open_inode_eq. unfold hdl_ok. cbn [fst snd hd_fd hd_flags]. intros Ha.
+  apply host_open_append in Ha. exact (openat_word_append _ _ _ Ha).
+Qed.
+(* open_inode with a word without O_TRUNC leaves every size alone *)
+Lemma open_inode_sizes C s file fl : has fl O_TRUNC = false ->
+  forall f, sizes (snd (fst (open_inode C s file fl))) f = sizes s f.
+Proof.
+  intros Ht f. rewrite open_inode_eq. cbn [fst snd]. rewrite upd_size_sizes.
+  rewrite host_open_size by (rewrite openat_word_trunc; exact Ht).
+  destruct (N.eqb_spec f file) as [->|]; reflexivity.
+Qed.
+
+Lemma get_data_ok C s slot file gd : slots_ok s -> slots_ok (snd (fst (get_data C s slot file gd))).
+Proof.
+  intros Hs. unfold get_data. destruct (c_no_open C).
+  - pose proof (open_inode_ok C s file gd Hs) as Ho. destruct (open_inode C s file gd) as [[e s1] fd].
+    cbn [fst snd] in Ho. destruct (e =? 0); exact Ho.
+  - destruct (slots s slot) as [h|]; [destruct (hd_file h =? file)|]; exact Hs.
+Qed.
+Lemma get_data_hdl_ok C s slot file gd h : slots_ok s -> snd (get_data C s slot file gd) = Some h -> hdl_ok h.
+Proof.
+  intros Hs. unfold get_data. destruct (c_no_open C).
+  - pose proof (open_inode_hdl_ok C s file gd) as Ho. destruct (open_inode C s file gd) as [[e s1] fd].
+    cbn [snd] in Ho. destruct (e =? 0); cbn [snd]; [intros [= <-]; exact Ho|discriminate].
+  - destruct (slots s slot) as [h0|] eqn:E; [|discriminate].
+    destruct (hd_file h0 =? file); cbn [snd]; [|discriminate]. intros [= <-]. exact (Hs _ _ E).
+Qed.
+Lemma get_data_sizes C s slot file gd : has gd O_TRUNC = false ->
+  forall f, sizes (snd (fst (get_data C s slot file gd))) f = sizes s f.
+Proof.
+  intros Ht f. unfold get_data. destruct (c_no_open C).
+  - pose proof (open_inode_sizes C s file gd Ht f) as Ho. destruct (open_inode C s file gd) as [[e s1] fd].
+    cbn [fst snd] in Ho. destruct (e =? 0); exact Ho.
+  - destruct (slots s slot) as [h|]; [destruct (hd_file h =? file)|]; reflexivity.
+Qed.
+(* with ordinary handles get_data does not touch the state *)
+Lemma get_data_handles C s slot file gd : c_no_open C = false -> snd (fst (get_data C s slot file gd)) = s.
+Proof.
+  intros Hn. unfold get_data. rewrite Hn. destruct (slots s slot) as [h|]; [destruct (hd_file h =? file)|]; reflexivity.
+Qed.
+
+Lemma check_fd_flags_ok C h fl : hdl_ok h -> hdl_ok (snd (check_fd_flags C h fl)).
 Proof.
   intros Hh. unfold check_fd_flags. destruct (hd_flags h =? fl); [exact Hh|].
-  unfold hdl_ok. cbn [hd_append hd_flags]. intros Hx. apply andb_true_iff in Hx. tauto.
+  unfold host_setfl. destruct (fd_path (hd_fd h)); cbn [fst snd N.eqb EBADF]; [exact Hh|].
+  unfold hdl_ok. cbn [hd_fd hd_flags fd_append]. apply setfl_word_append.
 Qed.
 
-(* after check_fd_flags the fd appends only if the request's flag word carries O_APPEND *)
-Lemma check_fd_flags_append wb h fl : hdl_ok h -> has fl O_APPEND = false -> hd_append (check_fd_flags wb h fl) = false.
+(* after a successful check_fd_flags the fd appends only if the request's flag word carries O_APPEND *)
+Lemma check_fd_flags_append C h fl : hdl_ok h -> has fl O_APPEND = false -> fst (check_fd_flags C h fl) = 0 ->
+  fd_append (hd_fd (snd (check_fd_flags C h fl))) = false.
 Proof.
-  intros Hh Hna. unfold check_fd_flags. destruct (hd_flags h =? fl) eqn:E; [|cbn [hd_append]; rewrite Hna; reflexivity].
-  destruct (hd_append h) eqn:Ea; [|reflexivity]. unfold hdl_ok in Hh. rewrite Ea in Hh. specialize (Hh eq_refl).
-  assert (hd_flags h = fl) by lia. congruence.
+  intros Hh Hna. unfold check_fd_flags. destruct (N.eqb_spec (hd_flags h) fl) as [E|E].
+  - intros _. cbn [snd]. destruct (fd_append (hd_fd h)) eqn:Ea; [|reflexivity].
+    unfold hdl_ok in Hh. rewrite Ea, E in Hh. specialize (Hh eq_refl). congruence.
+  - unfold host_setfl. destruct (fd_path (hd_fd h)); cbn [fst snd N.eqb EBADF]; [discriminate|].
+    intros _. cbn [hd_fd fd_append].
+    destruct (has (setfl_word (c_writeback C) (c_dio C) fl) O_APPEND) eqn:Es; [|reflexivity].
+    apply setfl_word_append in Es. congruence.
+Qed.
+(* check_fd_flags keeps the inode of the handle *)
+Lemma check_fd_flags_file C h fl : hd_file (snd (check_fd_flags C h fl)) = hd_file h.
+Proof.
+  unfold check_fd_flags. destruct (hd_flags h =? fl); [reflexivity|].
+  unfold host_setfl. destruct (fd_path (hd_fd h)); reflexivity.
 Qed.
 
 Lemma step_slots_ok H C s r : slots_ok s -> slots_ok (snd (step H C s r)).
 Proof.
-  intros Hs. destruct r as [slot file fl|slot file fl|slot file rfl|slot file off len wfl|slot file mode off len|file ws ns|slot rfile]; cbn [step].
+  intros Hs. destruct r as [slot file fl|slot file fl|slot file rfl|slot file off len wfl|slot file mode off len|file ws ns fh|slot rfile]; cbn [step].
   - destruct (c_no_open C); cbn [snd]; [exact Hs|].
     destruct (fx_open (c_fx C) && c_seal C && has fl O_TRUNC); cbn [snd]; [exact Hs|].
-    apply set_slot_ok; [apply open_effect_ok; exact Hs|apply new_hdl_ok].
-  - destruct (has fl O_EXCL); cbn [snd]; [exact Hs|].
-    destruct (fx_create (c_fx C) && c_seal C && has fl O_TRUNC); cbn [snd]; [exact Hs|].
-    destruct (c_no_open C); cbn [snd]; [apply open_effect_ok; exact Hs|].
-    apply set_slot_ok; [apply open_effect_ok; exact Hs|apply new_hdl_ok].
-  - destruct (get_data C s slot file) as [h0|] eqn:Eg; cbn [snd]; [|exact Hs].
-    assert (Hs1 : slots_ok (if c_no_open C then s else set_slot s slot (Some (check_fd_flags (c_writeback C) h0 rfl)))).
-    { destruct (c_no_open C); [exact Hs|]. apply set_slot_ok; [exact Hs|].
-      apply check_fd_flags_ok. exact (get_data_ok _ _ _ _ _ Hs Eg). }
-    destruct (hd_acc _ =? 1); cbn [snd]; exact Hs1.
-  - destruct (get_data C s slot file) as [h0|] eqn:Eg; cbn [snd]; [|exact Hs].
-    assert (Hs1 : slots_ok (if c_no_open C then s else set_slot s slot (Some (check_fd_flags (c_writeback C) h0 wfl)))).
-    { destruct (c_no_open C); [exact Hs|]. apply set_slot_ok; [exact Hs|].
-      apply check_fd_flags_ok. exact (get_data_ok _ _ _ _ _ Hs Eg). }
+    pose proof (open_inode_ok C s file fl Hs) as Ho. pose proof (open_inode_hdl_ok C s file fl) as Hh.
+    destruct (open_inode C s file fl) as [[e s1] fd]. cbn [fst snd] in Ho, Hh.
+    destruct (e =? 0); cbn [snd]; [apply set_slot_ok; assumption|exact Ho].
+  - destruct (host_create_excl _); cbn [snd]; [exact Hs| |].
+    + destruct (c_no_open C); cbn [snd]; [exact Hs|]. apply set_slot_ok; [exact Hs|].
+      unfold hdl_ok. cbn [hd_fd fd_append]. discriminate.
+    + destruct (has _ O_EXCL); cbn [snd]; [exact Hs|].
+      destruct (fx_create (c_fx C) && c_seal C && has fl O_TRUNC); cbn [snd]; [exact Hs|].
+      pose proof (open_inode_ok C s file fl Hs) as Ho. pose proof (open_inode_hdl_ok C s file fl) as Hh.
+      destruct (open_inode C s file fl) as [[e s1] fd]. cbn [fst snd] in Ho, Hh.
+      destruct (negb (e =? 0)); cbn [snd]; [exact Ho|].
+      destruct (c_no_open C); cbn [snd]; [exact Ho|apply set_slot_ok; assumption].
+  - pose proof (get_data_ok C s slot file (io_open_flags 0 rfl) Hs) as Hg.
+    pose proof (get_data_hdl_ok C s slot file (io_open_flags 0 rfl)) as Hh.
+    destruct (get_data C s slot file (io_open_flags 0 rfl)) as [[e0 s0] [h0|]]; cbn [fst snd] in Hg, Hh; cbn [snd]; [|exact Hg].
+    pose proof (check_fd_flags_ok C h0 rfl (Hh h0 Hs eq_refl)) as Hc.
+    destruct (check_fd_flags C h0 rfl) as [ef h]. cbn [snd] in Hc.
+    assert (Hs1 : slots_ok (if c_no_open C then s0 else set_slot s0 slot (Some h))).
+    { destruct (c_no_open C); [exact Hg|apply set_slot_ok; assumption]. }
+    destruct (negb (ef =? 0)); cbn [snd]; [exact Hs1|]. destruct (fd_readable (hd_fd h)); exact Hs1.
+  - pose proof (get_data_ok C s slot file (io_open_flags 2 wfl) Hs) as Hg.
+    pose proof (get_data_hdl_ok C s slot file (io_open_flags 2 wfl)) as Hh.
+    destruct (get_data C s slot file (io_open_flags 2 wfl)) as [[e0 s0] [h0|]]; cbn [fst snd] in Hg, Hh; cbn [snd]; [|exact Hg].
+    pose proof (check_fd_flags_ok C h0 wfl (Hh h0 Hs eq_refl)) as Hc.
+    destruct (check_fd_flags C h0 wfl) as [ef h]. cbn [snd] in Hc.
+    assert (Hs1 : slots_ok (if c_no_open C then s0 else set_slot s0 slot (Some h))).
+    { destruct (c_no_open C); [exact Hg|apply set_slot_ok; assumption]. }
+    destruct (negb (ef =? 0)); cbn [snd]; [exact Hs1|].
     destruct (fx_append (c_fx C) && c_seal C && has wfl O_APPEND && negb (len =? 0)); cbn [snd]; [exact Hs1|].
     destruct (negb _); cbn [snd]; [exact Hs1|].
     destruct (len =? 0); cbn [snd]; [exact Hs1|].
-    destruct (hd_acc _ =? 0); [destruct (I64_MAX <? off); cbn [snd]; exact Hs1|].
+    destruct (negb (fd_writable (hd_fd h))); [destruct (I64_MAX <? off); cbn [snd]; exact Hs1|].
     destruct (host_pwrite _ _ _ _ _) as [e sz]. cbn [snd]. apply set_size_ok. exact Hs1.
-  - destruct (get_data C s slot file) as [h0|]; cbn [snd]; [|exact Hs].
-    destruct (negb _); cbn [snd]; [exact Hs|].
-    destruct (ho_falloc _ _ _ _ _ _) as [e sz]. cbn [snd]. apply set_size_ok. exact Hs.
-  - destruct (ws && c_seal C); cbn [snd]; [exact Hs|]. destruct ws; cbn [snd]; [|exact Hs].
+  - pose proof (get_data_ok C s slot file (io_open_flags 2 0) Hs) as Hg.
+    destruct (get_data C s slot file (io_open_flags 2 0)) as [[e0 s0] [h0|]]; cbn [fst snd] in Hg; cbn [snd]; [|exact Hg].
+    destruct (negb _); cbn [snd]; [exact Hg|].
+    destruct (fd_path (hd_fd h0)); cbn [snd]; [exact Hg|].
+    destruct (ho_falloc _ _ _ _ _ _) as [e sz]. cbn [snd]. apply set_size_ok. exact Hg.
+  - destruct (setattr_data C s file fh) as [d|]; cbn [snd]; [|exact Hs].
+    destruct (ws && c_seal C); cbn [snd]; [exact Hs|].
+    destruct (negb _); cbn [snd]; [exact Hs|]. destruct ws; cbn [snd]; [|exact Hs].
     destruct (ho_maxbytes H <? ns); cbn [snd]; [exact Hs|apply set_size_ok; exact Hs].
   - destruct (c_no_open C); cbn [snd]; [exact Hs|].
     destruct (slots s slot) as [h|]; cbn [snd]; [|exact Hs].
@@ -120,7 +276,6 @@ Proof.
   cbn [snd]. lia.
 Qed.
 
-(* one request of a sealed export outside the known class leaves every size unchanged *)
 (* the request is outside the known class, or the tree refuses its kind *)
 Definition covered (C : cfg) (r : req) : bool :=
   negb (known r) ||
@@ -131,46 +286,70 @@ Definition covered (C : cfg) (r : req) : bool :=
   | _ => false
   end.
 
+Lemma set_size_same s file f : sizes (set_size s file (sizes s file)) f = sizes s f.
+Proof. unfold set_size. cbn [sizes]. destruct (N.eqb_spec f file) as [->|]; reflexivity. Qed.
+
+(* one covered request of a sealed export leaves every size unchanged, whatever its flag word *)
 Lemma step_sealed_sizes H C s r :
   c_seal C = true -> falloc_within H -> slots_ok s -> covered C r = true ->
   forall f, sizes (snd (step H C s r)) f = sizes s f.
 Proof.
   intros Hseal Hf Hs Hk f. unfold covered in Hk.
-  destruct r as [slot file fl|slot file fl|slot file rfl|slot file off len wfl|slot file mode off len|file ws ns|slot rfile]; cbn [step known] in *.
-  - destruct (c_no_open C); cbn [snd]; [reflexivity|]. rewrite Hseal. unfold open_effect.
-    destruct (has fl O_TRUNC); destruct (fx_open (c_fx C)); cbn in Hk |- *; try discriminate; reflexivity.
-  - destruct (has fl O_EXCL); cbn [snd]; [reflexivity|]. rewrite Hseal. unfold open_effect.
-    destruct (has fl O_TRUNC); destruct (fx_create (c_fx C)); cbn in Hk |- *; try discriminate;
-      destruct (c_no_open C); reflexivity.
-  - destruct (get_data C s slot file) as [h0|] eqn:Eg; cbn [snd]; [|reflexivity].
-    destruct (hd_acc _ =? 1); cbn [snd]; destruct (c_no_open C); reflexivity.
-  - destruct (get_data C s slot file) as [h0|] eqn:Eg; cbn [snd]; [|reflexivity].
+  destruct r as [slot file fl|slot file fl|slot file rfl|slot file off len wfl|slot file mode off len|file ws ns fh|slot rfile]; cbn [step known] in *.
+  - destruct (c_no_open C); cbn [snd]; [reflexivity|]. rewrite Hseal.
+    destruct (has fl O_TRUNC) eqn:Et.
+    + destruct (fx_open (c_fx C)); cbn in Hk |- *; [reflexivity|discriminate].
+    + rewrite andb_false_r. pose proof (open_inode_sizes C s file fl Et f) as Ho.
+      destruct (open_inode C s file fl) as [[e s1] fd]. cbn [fst snd] in Ho.
+      destruct (e =? 0); cbn [snd]; exact Ho.
+  - destruct (host_create_excl _); cbn [snd]; [reflexivity|destruct (c_no_open C); reflexivity|].
+    destruct (has _ O_EXCL); cbn [snd]; [reflexivity|]. rewrite Hseal.
+    destruct (has fl O_TRUNC) eqn:Et.
+    + destruct (fx_create (c_fx C)); cbn in Hk |- *; [reflexivity|discriminate].
+    + rewrite andb_false_r. pose proof (open_inode_sizes C s file fl Et f) as Ho.
+      destruct (open_inode C s file fl) as [[e s1] fd]. cbn [fst snd] in Ho.
+      destruct (negb (e =? 0)); cbn [snd]; [exact Ho|]. destruct (c_no_open C); cbn [snd]; exact Ho.
+  - pose proof (get_data_sizes C s slot file (io_open_flags 0 rfl) (io_open_flags_trunc 0 rfl (or_introl eq_refl)) f) as Hg.
+    destruct (get_data C s slot file (io_open_flags 0 rfl)) as [[e0 s0] [h0|]]; cbn [fst snd] in Hg; cbn [snd]; [|exact Hg].
+    destruct (check_fd_flags C h0 rfl) as [ef h].
+    assert (Hsz : sizes (if c_no_open C then s0 else set_slot s0 slot (Some h)) f = sizes s f)
+      by (destruct (c_no_open C); exact Hg).
+    destruct (negb (ef =? 0)); cbn [snd]; [exact Hsz|]. destruct (fd_readable (hd_fd h)); exact Hsz.
+  - pose proof (get_data_sizes C s slot file (io_open_flags 2 wfl) (io_open_flags_trunc 2 wfl (or_intror eq_refl))) as Hg.
+    pose proof (get_data_hdl_ok C s slot file (io_open_flags 2 wfl)) as Hh.
+    destruct (get_data C s slot file (io_open_flags 2 wfl)) as [[e0 s0] [h0|]]; cbn [fst snd] in Hg, Hh; cbn [snd]; [|apply Hg].
+    pose proof (check_fd_flags_append C h0 wfl (Hh h0 Hs eq_refl)) as Ha.
+    destruct (check_fd_flags C h0 wfl) as [ef h]. cbn [fst snd] in Ha.
     rewrite Hseal.
-    assert (Hsz : forall v, sizes (if c_no_open C then s else set_slot s slot (Some v)) f = sizes s f)
-      by (intros v; destruct (c_no_open C); reflexivity).
-    destruct (fx_append (c_fx C) && true && has wfl O_APPEND && negb (len =? 0)) eqn:Efx; cbn [snd]; [apply Hsz|].
-    destruct (seal_size_check true (sizes s file) off len 0 =? 0) eqn:Ec; cbn [negb]; cbn [snd]; [|apply Hsz].
-    destruct (len =? 0) eqn:El; cbn [snd]; [apply Hsz|].
-    destruct (hd_acc _ =? 0); [destruct (I64_MAX <? off); cbn [snd]; apply Hsz|].
+    assert (Hsz : sizes (if c_no_open C then s0 else set_slot s0 slot (Some h)) f = sizes s f)
+      by (destruct (c_no_open C); apply Hg).
+    destruct (N.eqb_spec ef 0) as [Eef|Eef]; cbn [negb]; cbn [snd]; [|exact Hsz].
+    destruct (fx_append (c_fx C) && true && has wfl O_APPEND && negb (len =? 0)) eqn:Efx; cbn [snd]; [exact Hsz|].
+    destruct (seal_size_check true (sizes s0 file) off len 0 =? 0) eqn:Ec; cbn [negb]; cbn [snd]; [|exact Hsz].
+    destruct (len =? 0) eqn:El; cbn [snd]; [exact Hsz|].
+    destruct (fd_writable (hd_fd h)); cbn [negb]; [|destruct (I64_MAX <? off); cbn [snd]; exact Hsz].
     assert (Hna : has wfl O_APPEND = false).
     { destruct (has wfl O_APPEND); [|reflexivity]. destruct (fx_append (c_fx C)); cbn in Hk, Efx; discriminate. }
-    rewrite (check_fd_flags_append _ _ _ (get_data_ok _ _ _ _ _ Hs Eg) Hna).
-    assert (Hc : seal_size_check true (sizes s file) off len 0 = 0) by lia.
+    rewrite (Ha Hna Eef).
+    assert (Hc : seal_size_check true (sizes s0 file) off len 0 = 0) by lia.
     destruct (seal_write_ok _ _ _ Hc) as [Hle _].
     pose proof (pwrite_within H _ _ _ Hle) as Hp.
-    destruct (host_pwrite H (sizes s file) false off len) as [e sz]. cbn [snd] in *. subst sz.
-    unfold set_size. cbn [sizes]. destruct (f =? file) eqn:E; [|apply Hsz].
-    assert (f = file) by lia. subst f. reflexivity.
-  - destruct (get_data C s slot file) as [h0|]; cbn [snd]; [|reflexivity].
+    destruct (host_pwrite H (sizes s0 file) false off len) as [e sz]. cbn [snd] in *. subst sz.
+    unfold set_size. cbn [sizes]. destruct (N.eqb_spec f file) as [->|]; [|exact Hsz].
+    apply Hg.
+  - pose proof (get_data_sizes C s slot file (io_open_flags 2 0) (io_open_flags_trunc 2 0 (or_intror eq_refl))) as Hg.
+    destruct (get_data C s slot file (io_open_flags 2 0)) as [[e0 s0] [h0|]]; cbn [fst snd] in Hg; cbn [snd]; [|apply Hg].
     rewrite Hseal.
-    destruct (seal_size_check false (sizes s file) off len mode =? 0) eqn:Ec; cbn [negb]; cbn [snd]; [|reflexivity].
-    assert (Hc : seal_size_check false (sizes s file) off len mode = 0) by lia.
+    destruct (seal_size_check false (sizes s0 file) off len mode =? 0) eqn:Ec; cbn [negb]; cbn [snd]; [|apply Hg].
+    destruct (fd_path (hd_fd h0)); cbn [snd]; [apply Hg|].
+    assert (Hc : seal_size_check false (sizes s0 file) off len mode = 0) by lia.
     destruct (seal_falloc_ok _ _ _ _ Hc) as [Hop Hle].
-    pose proof (Hf (negb (hd_acc h0 =? 0)) (sizes s file) mode off len Hop Hle) as Hp.
-    destruct (ho_falloc H (negb (hd_acc h0 =? 0)) (sizes s file) mode off len) as [e sz]. cbn [snd] in *. subst sz.
-    unfold set_size. cbn [sizes]. destruct (f =? file) eqn:E; [|reflexivity].
-    assert (f = file) by lia. subst f. reflexivity.
-  - rewrite Hseal. destruct ws; cbn [andb snd]; reflexivity.
+    pose proof (Hf (fd_writable (hd_fd h0)) (sizes s0 file) mode off len Hop Hle) as Hp.
+    destruct (ho_falloc H (fd_writable (hd_fd h0)) (sizes s0 file) mode off len) as [e sz]. cbn [snd] in *. subst sz.
+    rewrite set_size_same. apply Hg.
+  - destruct (setattr_data C s file fh) as [d|]; cbn [snd]; [|reflexivity].
+    rewrite Hseal. destruct ws; cbn [andb snd]; [reflexivity|].
+    destruct d as [h|]; [destruct (fd_path (hd_fd h))|]; reflexivity.
   - destruct (c_no_open C); cbn [snd]; [reflexivity|]. destruct (slots s slot) as [h|]; [|reflexivity].
     destruct (hd_file h =? rfile); reflexivity.
 Qed.
@@ -183,7 +362,7 @@ Proof.
   cbn [run]. rewrite (pair_eta (step H C s r)). rewrite (pair_eta (run H C (snd (step H C s r)) t)). reflexivity.
 Qed.
 
-(* the size invariant for all histories outside the known class *)
+(* the size invariant for all histories of covered requests *)
 Theorem sealed_sizes_partial H C : c_seal C = true -> falloc_within H ->
   forall rs s, slots_ok s -> forallb (covered C) rs = true ->
   forall f, sizes (snd (run H C s rs)) f = sizes s f.
@@ -260,7 +439,7 @@ Proof. intros k h. cbn. discriminate. Qed.
 Lemma sealed_sizes_refuted : ~ sealed_sizes_full no_fixes.
 Proof.
   intros Hfull.
-  specialize (Hfull tie_host (mk_cfg true false no_fixes false) eq_refl eq_refl tie_host_falloc_within
+  specialize (Hfull tie_host (mk_cfg true false no_fixes false true) eq_refl eq_refl tie_host_falloc_within
                     [Open 0 0 (N.lor 2 O_TRUNC)] w_state w_state_ok 0).
   vm_compute in Hfull. discriminate.
 Qed.
@@ -270,15 +449,38 @@ Proof. intros H C Hs Hfx Hf. apply sealed_sizes_full_when_fixed; assumption. Qed
 
 (* the three witnesses of D10 evaluated in the model (file of 10 bytes) *)
 Lemma witness_open_trunc :
-  sizes (snd (run tie_host (mk_cfg true false no_fixes false) w_state [Open 0 0 (N.lor 1 O_TRUNC)])) 0 = 0.
+  sizes (snd (run tie_host (mk_cfg true false no_fixes false true) w_state [Open 0 0 (N.lor 1 O_TRUNC)])) 0 = 0.
 Proof. reflexivity. Qed.
 Lemma witness_create_trunc :
-  sizes (snd (run tie_host (mk_cfg true true no_fixes false) w_state [Create 0 0 (N.lor 2 O_TRUNC)])) 0 = 0.
+  sizes (snd (run tie_host (mk_cfg true true no_fixes false true) w_state [Create 0 0 (N.lor 2 O_TRUNC)])) 0 = 0.
 Proof. reflexivity. Qed.
 Lemma witness_write_append :
-  fst (run tie_host (mk_cfg true false no_fixes false) w_state [Open 0 0 2; Write 0 0 0 4 (N.lor 2 O_APPEND)]) = [0; 0] /\
-  sizes (snd (run tie_host (mk_cfg true false no_fixes false) w_state [Open 0 0 2; Write 0 0 0 4 (N.lor 2 O_APPEND)])) 0 = 14.
+  fst (run tie_host (mk_cfg true false no_fixes false true) w_state [Open 0 0 2; Write 0 0 0 4 (N.lor 2 O_APPEND)]) = [0; 0] /\
+  sizes (snd (run tie_host (mk_cfg true false no_fixes false true) w_state [Open 0 0 2; Write 0 0 0 4 (N.lor 2 O_APPEND)])) 0 = 14.
 Proof. split; reflexivity. Qed.
+
+(* ------------------------------------------------------------------ open-time bits in the flag word of READ / WRITE *)
+(* the flag word of a READ or WRITE may carry any of the 32 bits - O_TRUNC, O_CREAT, O_EXCL, O_PATH, ... - with
+   ordinary handles and under no_open (where the descriptor is opened for the request): an instance of the theorem *)
+Definition ALL_BITS : N := 4294967295.
+Definition io_flag_history : list req :=
+  [Read 0 0 O_TRUNC; Write 0 0 0 1 (N.lor 2 O_TRUNC); Read 0 0 ALL_BITS; Write 0 0 0 1 ALL_BITS;
+   Write 0 0 0 1 (N.lor (N.lor 2 O_TRUNC) O_CREAT); Fallocate 0 0 0 0 1].
+Lemma io_flag_words_covered : forall H no_open wb dio, falloc_within H ->
+  forall f, sizes (snd (run H (mk_cfg true no_open all_fixes wb dio) w_state (Open 0 0 2 :: io_flag_history))) f = sizes w_state f.
+Proof. intros H no_open wb dio Hf. apply sealed_sizes_full_fixed; [reflexivity|reflexivity|exact Hf|exact w_state_ok]. Qed.
+(* ... and those requests are served, not merely refused: under no_open the READ succeeds and the WRITE with O_TRUNC
+   in its word writes its byte (F_SETFL ignores the bit); the all-ones word carries O_APPEND and is refused *)
+Lemma io_flag_words_served :
+  fst (run tie_host (mk_cfg true true all_fixes false true) w_state io_flag_history) = [0; 0; 0; EPERM; 0; 0] /\
+  fst (run tie_host (mk_cfg true false all_fixes false true) w_state (Open 0 0 2 :: io_flag_history)) = [0; 0; 0; 0; EPERM; 0; 0].
+Proof. split; reflexivity. Qed.
+(* what the statement excludes: were the request's word part of the word given to open_inode (access | (flags & !O_ACCMODE)),
+   the host would be handed O_TRUNC and cut the file to 0 bytes *)
+Lemma io_flag_leak_would_truncate : forall wb dio,
+  snd (fst (host_open 10 (openat_word wb dio (N.lor 2 (clear_bits (N.lor 2 O_TRUNC) O_ACCMODE))))) = 0 /\
+  snd (fst (host_open 10 (openat_word wb dio (io_open_flags 2 (N.lor 2 O_TRUNC))))) = 10.
+Proof. intros [|] [|]; split; reflexivity. Qed.
 
 (* ------------------------------------------------------------------ within the size: as unsealed *)
 (* the request does not ask for anything beyond the current size (and is not a size-setting setattr) *)
@@ -289,7 +491,7 @@ Definition stays_within (s : state) (r : req) : Prop :=
   | Fallocate _ file mode off len =>
     let op := clear_bits mode (N.lor FL_KEEP_SIZE FL_UNSHARE_RANGE) in
     (op = 0 \/ op = FL_PUNCH_HOLE \/ op = FL_ZERO_RANGE) /\ off + len <= sizes s file
-  | Setattr _ with_size _ => with_size = false
+  | Setattr _ with_size _ _ => with_size = false
   | _ => True
   end.
 
@@ -315,22 +517,33 @@ Proof.
   - exfalso. destruct Hop as [Ho|[Ho|Ho]]; rewrite Ho in E2; discriminate.
 Qed.
 
-Theorem within_size_same H no_open fx wb s r :
+(* get_data and check_fd_flags do not look at the seal switch *)
+Lemma get_data_seal_irrelevant sl no_open fx wb dio s slot file gd :
+  get_data (mk_cfg sl no_open fx wb dio) s slot file gd = get_data (mk_cfg false no_open fx wb dio) s slot file gd.
+Proof. reflexivity. Qed.
+
+Theorem within_size_same H no_open fx wb dio s r :
   size_bounded s -> stays_within s r ->
-  step H (mk_cfg true no_open fx wb) s r = step H (mk_cfg false no_open fx wb) s r.
+  step H (mk_cfg true no_open fx wb dio) s r = step H (mk_cfg false no_open fx wb dio) s r.
 Proof.
   intros Hb Hw.
-  destruct r as [slot file fl|slot file fl|slot file rfl|slot file off len wfl|slot file mode off len|file ws ns|slot rfile];
-    cbn [step c_seal c_no_open c_fx stays_within] in *; try reflexivity.
+  destruct r as [slot file fl|slot file fl|slot file rfl|slot file off len wfl|slot file mode off len|file ws ns fh|slot rfile];
+    cbn [step c_seal c_no_open c_fx c_writeback stays_within] in *; try reflexivity.
   - rewrite Hw, !andb_false_r. reflexivity.
   - rewrite Hw, !andb_false_r. reflexivity.
-  - destruct (get_data _ s slot file) as [h0|]; [|reflexivity]. destruct Hw as [Hw Ha].
-    rewrite (seal_write_pass _ _ _ Hw (Hb file)).
+  - rewrite (get_data_seal_irrelevant true).
+    pose proof (get_data_sizes (mk_cfg false no_open fx wb dio) s slot file (io_open_flags 2 wfl) (io_open_flags_trunc 2 wfl (or_intror eq_refl)) file) as Hg.
+    destruct (get_data _ s slot file _) as [[e0 s0] [h0|]]; [|reflexivity]. cbn [fst snd] in Hg.
+    change (check_fd_flags (mk_cfg true no_open fx wb dio) h0 wfl) with (check_fd_flags (mk_cfg false no_open fx wb dio) h0 wfl).
+    destruct (check_fd_flags _ h0 wfl) as [ef h]. destruct Hw as [Hw Ha].
+    rewrite Hg, (seal_write_pass _ _ _ Hw (Hb file)).
     assert (Hx : has wfl O_APPEND && negb (len =? 0) = false).
     { destruct Ha as [-> | ->]; [reflexivity|apply andb_false_r]. }
     rewrite <- !andb_assoc, Hx, !andb_false_r. reflexivity.
-  - destruct (get_data _ s slot file) as [h0|]; [|reflexivity]. destruct Hw as [Hop Hle].
-    rewrite (seal_falloc_pass _ _ _ _ Hop Hle (Hb file)). reflexivity.
+  - rewrite (get_data_seal_irrelevant true).
+    pose proof (get_data_sizes (mk_cfg false no_open fx wb dio) s slot file (io_open_flags 2 0) (io_open_flags_trunc 2 0 (or_intror eq_refl)) file) as Hg.
+    destruct (get_data _ s slot file _) as [[e0 s0] [h0|]]; [|reflexivity]. cbn [fst snd] in Hg. destruct Hw as [Hop Hle].
+    rewrite Hg, (seal_falloc_pass _ _ _ _ Hop Hle (Hb file)). reflexivity.
   - subst ws. reflexivity.
 Qed.
 
@@ -342,41 +555,65 @@ Definition would_change (s : state) (r : req) : Prop :=
   | Fallocate _ file mode off len =>
     let op := clear_bits mode (N.lor FL_KEEP_SIZE FL_UNSHARE_RANGE) in
     ~ (op = 0 \/ op = FL_PUNCH_HOLE \/ op = FL_ZERO_RANGE) \/ sizes s file < off + len
-  | Setattr _ with_size _ => with_size = true
+  | Setattr _ with_size _ _ => with_size = true
   | _ => False
   end.
 
-Theorem refused_no_effect H no_open fx wb s r :
-  would_change s r ->
-  (get_data (mk_cfg true no_open fx wb) s (match r with Write k _ _ _ _ | Fallocate k _ _ _ _ => k | _ => 0 end)
-            (match r with Write _ f _ _ _ | Fallocate _ f _ _ _ => f | _ => 0 end) <> None \/
-   match r with Setattr _ _ _ => True | _ => False end) ->
-  (fst (step H (mk_cfg true no_open fx wb) s r) = EPERM \/ fst (step H (mk_cfg true no_open fx wb) s r) = EINVAL) /\
-  forall f, sizes (snd (step H (mk_cfg true no_open fx wb) s r)) f = sizes s f.
+(* the request reaches a descriptor (a handle of this inode, or no_open) *)
+Definition has_data (C : cfg) (s : state) (r : req) : Prop :=
+  match r with
+  | Write k f _ _ wfl => snd (get_data C s k f (io_open_flags 2 wfl)) <> None
+  | Fallocate k f _ _ _ => snd (get_data C s k f (io_open_flags 2 0)) <> None
+  | Setattr f _ _ fh => setattr_data C s f fh <> None
+  | _ => False
+  end.
+
+(* the only way check_fd_flags fails is F_SETFL on an O_PATH descriptor: EBADF *)
+Lemma check_fd_flags_errno C h fl : fst (check_fd_flags C h fl) = 0 \/ fst (check_fd_flags C h fl) = EBADF.
+Proof.
+  unfold check_fd_flags. destruct (hd_flags h =? fl); [left; reflexivity|].
+  unfold host_setfl. destruct (fd_path (hd_fd h)); [right|left]; reflexivity.
+Qed.
+
+(* EBADF: a handle of another inode (setattr), or F_SETFL of the request's word on an O_PATH descriptor, which
+   fails before the seal is consulted *)
+Theorem refused_no_effect H no_open fx wb dio s r :
+  would_change s r -> has_data (mk_cfg true no_open fx wb dio) s r ->
+  (fst (step H (mk_cfg true no_open fx wb dio) s r) = EPERM \/ fst (step H (mk_cfg true no_open fx wb dio) s r) = EINVAL
+   \/ fst (step H (mk_cfg true no_open fx wb dio) s r) = EBADF) /\
+  forall f, sizes (snd (step H (mk_cfg true no_open fx wb dio) s r)) f = sizes s f.
 Proof.
   intros Hw Hg.
-  destruct r as [slot file fl|slot file fl|slot file rfl|slot file off len wfl|slot file mode off len|file ws ns|slot rfile];
-    cbn [would_change] in Hw; try contradiction; cbn [step c_seal c_no_open c_fx].
-  - destruct Hg as [Hg|[]]. destruct (get_data _ s slot file) as [h0|]; [|contradiction].
-    assert (Hc : seal_size_check true (sizes s file) off len 0 = EPERM \/ seal_size_check true (sizes s file) off len 0 = EINVAL).
-    { unfold seal_size_check. destruct (U64_MAX <? off + len); [right; reflexivity|].
+  destruct r as [slot file fl|slot file fl|slot file rfl|slot file off len wfl|slot file mode off len|file ws ns fh|slot rfile];
+    cbn [would_change] in Hw; try contradiction; cbn [has_data] in Hg; cbn [step c_seal c_no_open c_fx].
+  - pose proof (get_data_sizes (mk_cfg true no_open fx wb dio) s slot file (io_open_flags 2 wfl) (io_open_flags_trunc 2 wfl (or_intror eq_refl))) as Hs0.
+    destruct (get_data _ s slot file _) as [[e0 s0] [h0|]]; [|contradiction]. cbn [fst snd] in Hs0.
+    pose proof (check_fd_flags_errno (mk_cfg true no_open fx wb dio) h0 wfl) as Hef.
+    destruct (check_fd_flags _ h0 wfl) as [ef h]. cbn [fst] in Hef.
+    assert (Hsz : forall f, sizes (if no_open then s0 else set_slot s0 slot (Some h)) f = sizes s f)
+      by (intros f; destruct no_open; apply Hs0).
+    assert (Hc : seal_size_check true (sizes s0 file) off len 0 = EPERM \/ seal_size_check true (sizes s0 file) off len 0 = EINVAL).
+    { rewrite Hs0. unfold seal_size_check. destruct (U64_MAX <? off + len); [right; reflexivity|].
       destruct (sizes s file <? len + off) eqn:E; [left; reflexivity|lia]. }
-    assert (Hnz : negb (seal_size_check true (sizes s file) off len 0 =? 0) = true)
+    assert (Hnz : negb (seal_size_check true (sizes s0 file) off len 0 =? 0) = true)
       by (destruct Hc as [-> | ->]; reflexivity).
     rewrite Hnz.
+    destruct Hef as [-> | ->]; cbn [N.eqb EBADF negb fst snd]; [|split; [right; right; reflexivity|exact Hsz]].
     destruct (fx_append fx && true && has wfl O_APPEND && negb (len =? 0)); cbn [fst snd];
-      (split; [try exact Hc; left; reflexivity|intros f; destruct no_open; reflexivity]).
-  - destruct Hg as [Hg|[]]. destruct (get_data _ s slot file) as [h0|]; [|contradiction].
-    assert (Hc : seal_size_check false (sizes s file) off len mode = EPERM \/ seal_size_check false (sizes s file) off len mode = EINVAL).
-    { unfold seal_size_check. destruct (U64_MAX <? off + len); [right; reflexivity|]. cbv zeta.
+      (split; [|exact Hsz]); [left; reflexivity|destruct Hc as [-> | ->]; auto].
+  - pose proof (get_data_sizes (mk_cfg true no_open fx wb dio) s slot file (io_open_flags 2 0) (io_open_flags_trunc 2 0 (or_intror eq_refl))) as Hs0.
+    destruct (get_data _ s slot file _) as [[e0 s0] [h0|]]; [|contradiction]. cbn [fst snd] in Hs0.
+    assert (Hc : seal_size_check false (sizes s0 file) off len mode = EPERM \/ seal_size_check false (sizes s0 file) off len mode = EINVAL).
+    { rewrite Hs0. unfold seal_size_check. destruct (U64_MAX <? off + len); [right; reflexivity|]. cbv zeta.
       set (op := clear_bits mode (N.lor FL_KEEP_SIZE FL_UNSHARE_RANGE)) in *.
       destruct ((op =? 0) || (op =? FL_PUNCH_HOLE) || (op =? FL_ZERO_RANGE)) eqn:E2.
       - destruct (sizes s file <? len + off) eqn:E3; [left; reflexivity|].
         exfalso. destruct Hw as [Hw|Hw]; [|lia]. apply Hw.
         apply orb_true_iff in E2. destruct E2 as [E2|E2]; [apply orb_true_iff in E2; destruct E2 as [E2|E2]|]; lia.
       - destruct ((op =? FL_COLLAPSE_RANGE) || (op =? FL_INSERT_RANGE)); [left|right]; reflexivity. }
-    assert (Hnz : negb (seal_size_check false (sizes s file) off len mode =? 0) = true)
+    assert (Hnz : negb (seal_size_check false (sizes s0 file) off len mode =? 0) = true)
       by (destruct Hc as [-> | ->]; reflexivity).
-    rewrite Hnz. cbn [fst snd]. split; [exact Hc|]. reflexivity.
-  - subst ws. cbn [andb fst snd]. split; [left; reflexivity|reflexivity].
+    rewrite Hnz. cbn [fst snd]. split; [destruct Hc as [-> | ->]; auto|exact Hs0].
+  - subst ws. destruct (setattr_data _ s file fh) as [d|]; [|contradiction].
+    cbn [andb fst snd]. split; [left; reflexivity|reflexivity].
 Qed.
